@@ -9,7 +9,7 @@ ID = "C15"
 LEVEL = "exploration"
 RULE = ("cases are expression trees (depth <= 4) whose leaves are calls of logging functions (one logger per result type; "
         "recursive loggers keep temporaries live across nested activations) and - in half of the cases - BARE reads of mutable state (a variable, a list element, an object field) "
-        "next to logging calls that change that state, and - one leaf in seven - plain CONSTANTS (so that `f() && false`, `g() || true`, `h() * 0` occur), combined by binary operators (printed with the "
+        "next to logging calls that change that state, and operands that are PATHS rooted at a `const` or a plain name (a logging method call that changes its object, a field read, a subscript computed by a logging call), and - one leaf in seven - plain CONSTANTS (so that `f() && false`, `g() || true`, `h() * 0` occur), combined by binary operators (printed with the "
         "minimal parentheses of the precedence table, or explicitly parenthesised), calls with 0-4 arguments whose callees "
         "log on entry, method calls, list and map literals, indexing, &&, ||, `or`; the oracle is the reference interpreter's "
         "log sequence followed by the value. Non-trivial = >= 3 logging leaves of which one is nested >= 2 deep, or a bare state read and a mutator in one expression; distinct by "
@@ -47,6 +47,16 @@ def prelude():
                 [log(), ("seti", V("cell"), I(1), ("bin", "+", ("index", V("cell"), I(1)), V("d"))), ("return", ("index", V("cell"), I(1)))]), ()))
     st_.append(("decl", "MP", None, ("fn", [("k", "int"), ("d", "int")], "int",
                 [log(), ("setf", V("p"), "v", ("bin", "+", ("field", V("p"), "v"), V("d"))), ("return", ("field", V("p"), "v"))]), ()))
+    # the same kinds of state behind names bound in other ways: `const` objects and lists (the NAME is constant, what it refers to
+    # is not), and a counter object whose METHODS log and change it: operands that are paths - a method call, a field read, a
+    # computed subscript - rooted at such a name are operands like any other
+    st_.append(("class", "Cn", [("n", "int")], [("n", "int")], [("setf", V("self"), "n", V("n"))], [
+        ("next", [("k", "int")], "int", [("print", ("bin", "+", S("n"), V("k"))), ("setf", V("self"), "n", ("bin", "+", ("field", V("self"), "n"), I(1))),
+                                         ("return", ("field", V("self"), "n"))]),
+        ("peek", [("k", "int")], "int", [("print", ("bin", "+", S("p"), V("k"))), ("return", ("field", V("self"), "n"))])]))
+    st_.append(("decl", "cc", None, ("new", "Cn", [I(0)]), ("const",)))
+    st_.append(("decl", "vc", None, ("new", "Cn", [I(0)]), ()))
+    st_.append(("decl", "ct", ("list", "int"), ("list", [I(10), I(20), I(30)]), ("const",)))
     for n in range(0, 5):
         params = [("a%d" % i, "int") for i in range(n)]
         body = [("print", S("A%d" % n))]
@@ -89,7 +99,21 @@ def leaf(c, t, nest):
     c.leaves += 1
     c.maxdepth = max(c.maxdepth, nest)
     if t == "int" and c.state:
-        ch = g.weighted([(70, "log"), (16, "read"), (14, "mutate")])
+        ch = g.weighted([(58, "log"), (14, "read"), (12, "mutate"), (16, "path")])
+        if ch == "path":
+            root = g.choice(["cc", "cc", "vc"])
+            k = g.choice(["method-mutate", "method-mutate", "method-read", "field-read", "subscript", "subscript-of-variable"])
+            g.label("path-operand:%s:%s" % ("const-root" if k == "subscript" or (root == "cc" and k != "subscript-of-variable") else "variable-root", k))
+            if k == "method-mutate":
+                c.mutators += 1
+                return ("mcall", V(root), "next", [c.key()])
+            if k == "method-read":
+                c.reads += 1
+                return ("mcall", V(root), "peek", [c.key()])
+            if k == "field-read":
+                c.reads += 1
+                return ("field", V(root), "n")
+            return ("index", V("ct" if k == "subscript" else "cell"), ("call", V("Li"), [c.key(), I(g.int(0, 2))]))
         if ch == "read":
             c.reads += 1
             g.label("state-read")
@@ -226,7 +250,7 @@ def cases(draw):
     else:
         stmts.append(("print", ("bin", "+", ("bin", "+", S("v="), gen(c, "int", depth, 1)), gen(c, "str", depth - 1, 1))))
     if c.state:
-        stmts += [("print", V("acc")), ("print", V("cell")), ("print", ("field", V("p"), "v"))]
+        stmts += [("print", V("acc")), ("print", V("cell")), ("print", ("field", V("p"), "v")), ("print", ("field", V("cc"), "n")), ("print", ("field", V("vc"), "n"))]
         if c.reads and c.mutators:
             g.label("state-read-and-mutate-in-one-expression")
     return {"stmts": stmts, "labels": sorted(g.labels) + ["form=" + form, "depth=%d" % depth],
